@@ -7,6 +7,8 @@ pub mod c05;
 pub mod c06;
 pub mod c07;
 pub mod c08;
+pub mod c09;
+pub mod c10;
 pub mod c12;
 pub mod c13;
 pub mod c14;
@@ -29,6 +31,8 @@ pub fn lookup(id: &str) -> Option<(&'static str, fn(&Engine))> {
         "C06" => ("C06", c06::run),
         "C07" => ("C07", c07::run),
         "C08" => ("C08", c08::run),
+        "C09" => ("C09", c09::run),
+        "C10" => ("C10", c10::run),
         "C12" => ("C12", c12::run),
         "C13" => ("C13", c13::run),
         "C14" => ("C14", c14::run),
